@@ -13,6 +13,7 @@ import (
 	"os"
 	"path/filepath"
 	"runtime/debug"
+	"runtime/pprof"
 	"strconv"
 	"strings"
 
@@ -70,6 +71,12 @@ func main() {
 	run.Assumptions = spec.Assumptions
 	_ = only
 
+	if pf := os.Getenv("SBPF_CPUPROFILE"); pf != "" {
+		if f, err := os.Create(pf); err == nil {
+			pprof.StartCPUProfile(f)
+			defer pprof.StopCPUProfile()
+		}
+	}
 	func() {
 		defer func() {
 			if e := recover(); e != nil {
@@ -79,7 +86,9 @@ func main() {
 		env := rules.NewEnv(run)
 		spec.Run(env)
 	}()
-	os.Exit(run.Finish())
+	code := run.Finish()
+	pprof.StopCPUProfile()
+	os.Exit(code)
 }
 
 // explain re-runs the property of a replay file on the current tree and prints
